@@ -54,7 +54,7 @@ def main():
                ("3 lines x 2 runes", dict(MaxLines="3", MaxRunes="2", Pres="PresSome", Offsets="{0, 3}")),
                ("1 line x 4 runes", dict(MaxLines="1", MaxRunes="4", Pres="PresAll", Offsets="{0, 1, 2, 3}"))]
     else:
-        mcs = [("2 lines x 2 runes", dict())]
+        mcs = [("2 lines x 2 runes, 3 texts in front", dict(Pres="PresSome"))]
     for name, sub in mcs:
         mc = vlib.tlc("MCSourceMap", "mc.cfg", files={"mc.cfg": cfg("SourceMap_mc.cfg", **sub)}, workers=12,
                       timeout=1500, xmx="8g")
@@ -73,7 +73,8 @@ def main():
         gen = vlib.tlc("MCSourceMapGen", "gen.cfg", workers=1, timeout=900,
                        files={"gen.cfg": cfg("SourceMapGen_gen.cfg", MaxRunes="3", Pres="PresTwo")})
     else:
-        gen = vlib.tlc("MCSourceMapGen", "SourceMapGen_gen.cfg", workers=1, timeout=600)
+        gen = vlib.tlc("MCSourceMapGen", "gen.cfg", workers=1, timeout=600,
+                       files={"gen.cfg": cfg("SourceMapGen_gen.cfg", Pres="PresTwo")})
     if not gen.ok:
         raise vlib.InfraError("case generator failed: %s" % gen.violated)
     ck.add_tlc(gen, "SourceMapGen (exhaustive shapes)")
@@ -188,7 +189,7 @@ def main():
     ck.set("per_slot", s["per_slot"])
     ck.set("per_expression_holder", s["per_holder"])
     ck.set("failing_events", len(bad))
-    ck.set("bounds", {"mc": [m[0] for m in mcs], "gen_exhaustive": "2 lines x %d runes, widths 1..4, %d texts in front" % ((3, 2) if thorough else (2, 3)),
+    ck.set("bounds", {"mc": [m[0] for m in mcs], "gen_exhaustive": "2 lines x %d runes, widths 1..4, %d texts in front" % ((3, 2) if thorough else (2, 2)),
                       "gen_simulated": "3 lines x 4 runes, widths 1..4, 13 texts in front (0-2 multi-byte runes)"})
     ck.assume("target text = generator.Generate's unformatted output (what the LSP proxy sends to gopls with this map)")
     ck.assume("positions are byte columns (parse.Input / RangeWriter); UTF-16 column conversion of LSP clients is outside the property")
